@@ -169,7 +169,8 @@ def decorate(rng, spec: EnumSpec, allow_docs=True, allow_props=True, allow_messa
         if allow_messages and v.detailed_message is None and rng.random() < 0.15:
             v.detailed_message = "detail %d" % i
         if allow_props and not v.props and rng.random() < 0.25:
-            v.props = [[("pk", "pv%d" % i)], [("pn", i)]][: rng.randint(1, 2)]
+            kw = rng.choice(["pk", "pk", "disabled", "default", "serialize", "message"])   # props keys are arbitrary identifiers
+            v.props = [[(kw, "pv%d" % i)], [("pn", i)]][: rng.randint(1, 2)]
         if allow_docs and not v.docs and rng.random() < 0.3:
             v.docs = [" doc %d" % i, " more"][: rng.randint(1, 2)]
         if len(v.docs) >= 2 and rng.random() < 0.5:
